@@ -193,6 +193,17 @@ func runC14(c *Check) {
 				}
 			}
 			c.Report(len(expired) > 0 && GuardedBy(fn, cl, expired), P+".O3", "EXPIRY-COMPARISON", fn, cl.Pos(), "delete", "an entry is deleted only on the edge where its stored expiry is before (not after) the clean-up tick")
+			// the sweep is complete: after a delete the loop goes on to the next entry (no early end that leaves expired keys behind)
+			if nx, isNx := next.(ssa.Instruction); isNx {
+				re := ReachAfter(cl, NewCut().AddInstrs(nx))
+				okFull := true
+				for _, ret := range Returns(fn) {
+					if re[ret] {
+						okFull = false
+					}
+				}
+				c.Report(okFull, P+".O3", "CLEANUP-SWEEPS-ALL", fn, cl.Pos(), "delete", "one clean-up pass visits every entry: a delete is always followed by the next step of the range (a bounded batch would let expired keys keep suppressing messages)")
+			}
 		}
 	}
 	c.Floor(P+".O3", "delete from the tag map", ndel, 1)
